@@ -40,6 +40,7 @@ F=[
  ("do not let --glob bypass .styluaignore", ['C16'], "`-g '**/*.lua' .` formatted hidden files and files excluded by .styluaignore"),
  ("accept call_parentheses = Input in .editorconfig", ['C20'], "`.editorconfig` with `call_parentheses = Input`: silently ignored (the default `Always` applied) although stylua.toml and --call-parentheses accept the value"),
  ("keep a space after the access modifier of a Luau array type", ['C02'], "Luau `type T = { read number }` -> `{ readnumber }` (another type); on a line of its own the indentation went between modifier and type"),
+ ("keep the parentheses of a generic type pack", ['C01'], "Luau `type T<U... = (string)> = {}` -> `type T<U... = string> = {}` (does not parse)"),
 ]
 by={}
 for sub,props,what in F:
